@@ -1,7 +1,12 @@
 """C03 Neighbor list (nlist.pyx read through Cython's parser, NeighborList.py).
 
-Decided statically (necessary structural conditions; the pair set for a given configuration needs distances and is
-not decided):
+Decided statically:
+ * CONFIGURATIONS: nlist() interpreted whole (exact rational arithmetic, the distance kernel modelled by its C02
+   specification, which MINFOLD ties to dmag.pyx) on small scripted configurations -- cubic and tilted cells, shifted
+   origin, every kind of periodicity, atoms on faces, pairs exactly at the cutoff, clusters that make both storages
+   grow, cutoffs above the cell widths, bins that hold only images, thin non-periodic cells; the table returned must
+   list, for every atom, exactly the other atoms closer than the cutoff, ascending.  However the loops are spelt.
+The remaining rules are necessary structural conditions that hold for every input, not only the scripted ones:
  * SWEEP-FILL: a half-stencil cell list examines each pair of adjacent bins from one side only, so every bin that the
    fill loop populates must be swept: the definition of the bin-index table reaching the sweep list equals the
    definition reaching the fill loop (reaching-definitions).
@@ -110,11 +115,7 @@ def stencil(ctx):
     alt = ['x+dx>=numxbins', 'y+dy>=numybins', 'z+dz>=numzbins']
     ok = len(skip) == 1 and all(w in txt for w in want[0::2]) and all((w in txt) or (a in txt) for w, a in zip(want[1::2], alt)) and isinstance(skip[0].test, ast.BoolOp) and isinstance(skip[0].test.op, ast.Or)
     ctx.ob('STENCIL', loc, 'neighbour bins outside the grid are skipped on all six faces', ok, txt, node=skip[0] if skip else inner)
-    # own-bin pairs: v ranges over u+1..
-    pair = [l for l in _loops(sweep) if isinstance(l.target, ast.Tuple) and norm(l.iter).replace(' ', '').startswith('enumerate(range(u+1,longlist.shape[0]))')]
-    ctx.ob('STENCIL', loc, 'within the combined list each unordered pair is taken once (v from u+1)', len(pair) == 2, '%d pair loops' % len(pair), node=sweep)
-    ul = _loops(sweep, 'u')
-    ctx.ob('STENCIL', loc, 'the first member of a pair comes from the swept bin itself', len(ul) == 1 and norm(ul[0].iter).replace(' ', '') == 'range(shortlist.shape[0])', node=sweep)
+    # which pairs of the combined list are compared, and which atom each comes from, is decided by CONFIGURATIONS (nlist interpreted whole)
     sl = assigns_to(fn, 'superlonglist')
     ok = False
     if sl:
@@ -300,26 +301,11 @@ def membership(ctx):
     c2 = assigns_to(fn, 'cutoff2')
     ok = len(c2) == 1 and sp.expand(_sym(c2[0].value, ['cutoff']) - sp.Symbol('cutoff', positive=True) ** 2) == 0
     ctx.ob('MEMBERSHIP', loc, 'the squared cutoff is cutoff·cutoff', ok, node=c2[0] if c2 else fn)
-    tests = [s for s in ast.walk(sweep) if isinstance(s, ast.If) and 'cutoff2' in norm(s.test)]
-    ok = len(tests) == 1 and cmp_canon(tests[0].test) == ('cutoff2', '>', 'dmag2[w]')
-    ctx.ob('MEMBERSHIP', loc, 'a pair is kept iff its squared periodic distance is strictly below the squared cutoff', ok, norm(tests[0].test) if tests else '', node=tests[0] if tests else sweep)
-    dc = [c for c in calls_in(sweep) if norm(c.func) == 'dmag2_c']
-    ok = len(dc) == 1 and [norm(a) for a in dc[0].args] == ['upos', 'vpos', 'vects', 'pbc_a', 'pbc_b', 'pbc_c']
-    ctx.ob('MEMBERSHIP', loc, 'distances are periodic distances under the system\'s vectors and flags (in order)', ok, norm(dc[0]) if dc else '', node=dc[0] if dc else sweep)
+    # strictness of the test, the arguments of the kernel and the positions compared are decided by CONFIGURATIONS (pairs exactly at the cutoff, mixed periodic flags, thin cells)
     imp = [n for n in ctx.mod(NL).body if isinstance(n, ast.ImportFrom) and any(a.name == 'dmag2_c' for a in n.names)]
     ctx.ob('MEMBERSHIP', loc, 'dmag2_c is the kernel of C02 (imported from .dmag)', len(imp) == 1 and imp[0].module == 'dmag', node=imp[0] if imp else fn)
     henv = head_env(ctx)
     ctx.ob('MEMBERSHIP', loc, 'the vectors are the system\'s cell vectors', henv.get('vects') is henv['__system__'].box.vects, node=fn)
-    up = [s for s in ast.walk(sweep) if isinstance(s, ast.Assign) and norm(s.targets[0]) in ('upos[w, j]', 'vpos[w, j]')]
-    want = {'upos[w, j]': 'posv[uindex, j]', 'vpos[w, j]': 'posv[vindex, j]'}
-    ctx.ob('MEMBERSHIP', loc, 'compared positions are those of the two atoms (real positions; the periodic distance takes care of images)',
-           len(up) == 2 and all(norm(s.value) == want[norm(s.targets[0])] for s in up), node=sweep)
-    ui = [s for s in ast.walk(sweep) if isinstance(s, ast.Assign) and norm(s.targets[0]) in ('uindex', 'vindex')]
-    srcs = {(norm(s.targets[0]), norm(s.value)) for s in ui}
-    ctx.ob('MEMBERSHIP', loc, 'atom ids come from the bin lists (u from the swept bin, v from the combined list)', srcs == {('uindex', 'shortlist[u]'), ('vindex', 'longlist[v]')}, str(sorted(srcs)), node=sweep)
-    ne = [s for s in ast.walk(tests[0] if tests else sweep) if isinstance(s, ast.If) and cmp_canon(s.test) in (('uindex', '!=', 'vindex'),)]
-    ctx.ob('MEMBERSHIP', loc, 'an atom is never its own neighbour (uindex != vindex guards insertion)', len(ne) == 1, node=sweep)
-    return tests[0] if tests else None
 
 
 def insertion(ctx):
@@ -455,6 +441,140 @@ def insertion(ctx):
     ctx.ob('INSERTION', loc, 'the table returned is the (possibly grown) neighbour table', len(ret) == 1 and norm(ret[0].value) == 'np.asarray(neighbors)', node=fn)
 
 
+def _exact(x):
+    import numpy as np
+    a = np.empty(np.shape(x), dtype=object)
+    src = np.asarray(x, dtype=object)
+    for i in range(a.size):
+        a.flat[i] = sp.nsimplify(src.flat[i])
+    return a
+
+
+def _periodic2(u, v, vects, flags):
+    """squared periodic distance in the sense of C02: the smallest over the images -1, 0, +1 along each periodic direction"""
+    import itertools
+    best = None
+    for s_ in itertools.product(*[((-1, 0, 1) if f else (0,)) for f in flags]):
+        d = v - u + sum(s_[k] * vects[k] for k in range(3))
+        m = sum(x * x for x in d)
+        best = m if best is None or m < best else best
+    return best
+
+
+def _configurations():
+    """(tag, cell vectors, origin, periodic flags, positions, cutoff, initialsize, deltasize, tier)"""
+    R = sp.Rational
+    cube3 = [[3, 0, 0], [0, 3, 0], [0, 0, 3]]
+    four = [[R(1, 10), R(1, 10), R(1, 10)], [R(29, 10), R(1, 10), R(1, 10)], [R(3, 2), R(3, 2), R(3, 2)], [R(3, 2), R(21, 10), R(3, 2)], [R(23, 10), R(1, 10), R(1, 10)]]
+    tilt = [[4, 0, 0], [1, 3, 0], [R(1, 2), R(-1, 2), R(7, 2)]]
+    o2 = [R(-5, 4), R(2, 3), R(-7, 2)]
+    frac = [[0, 0, 0], [R(19, 20), 0, R(1, 20)], [R(1, 2), R(1, 2), R(1, 2)], [R(1, 2), R(3, 5), R(1, 2)], [0, R(19, 20), R(1, 2)], [R(1, 40), R(1, 40), R(39, 40)], [R(3, 5), R(1, 2), R(11, 20)]]
+    import numpy as np
+    tpos = [list(np.array(o2, dtype=object) + np.array(f, dtype=object).dot(np.array(tilt, dtype=object))) for f in frac]
+    cluster = [[R(3, 2) + R(i % 2, 10), R(3, 2) + R((i // 2) % 2, 10), R(3, 2) + R(i // 4, 10)] for i in range(8)]
+    out = [('five atoms in a cubic cell, all directions periodic (pairs across two faces, one of them needing most of the padding)', cube3, [0, 0, 0], (True, True, True), four, 1, 1, 1, 'quick'),
+           ('the same atoms, no direction periodic', cube3, [0, 0, 0], (False, False, False), four, 1, 20, 10, 'quick'),
+           ('the same atoms, only the second direction periodic', cube3, [0, 0, 0], (False, True, False), four, 1, 2, 3, 'quick'),
+           ('tilted cell with a shifted origin, first and third directions periodic, atoms on faces and near corners', tilt, o2, (True, False, True), tpos, R(3, 4), 1, 1, 'quick'),
+           ('the same tilted cell, all directions periodic, larger cutoff', tilt, o2, (True, True, True), tpos, R(5, 4), 3, 2, 'thorough'),
+           ('a single atom, cutoff above the cell widths', [[1, 0, 0], [0, 1, 0], [0, 0, 1]], [0, 0, 0], (True, True, True), [[R(1, 2), R(1, 2), R(1, 2)]], R(3, 2), 1, 1, 'quick'),
+           ('two atoms, cutoff above the cell widths (each pair is listed once)', [[1, 0, 0], [0, 1, 0], [0, 0, 1]], [0, 0, 0], (True, True, False), [[R(1, 4), R(1, 4), R(1, 4)], [R(3, 4), R(1, 2), R(1, 4)]], R(6, 5), 1, 1, 'quick'),
+           ('eight atoms clustered in one bin, storage of one slot growing by one', cube3, [0, 0, 0], (True, True, True), cluster, 1, 1, 1, 'quick'),
+           ('the same cluster with roomy storage', cube3, [0, 0, 0], (True, True, True), cluster, 1, 20, 10, 'quick'),
+           ('pairs exactly at the cutoff and just inside it', cube3, [0, 0, 0], (False, False, False), [[1, 1, 1], [2, 1, 1], [1, R(199, 100), 1], [1, 1, R(1, 100)]], 1, 2, 1, 'quick'),
+           ('long cell, two atoms that are neighbours only through the periodic face (the image sits in a bin holding no real atom)', [[10, 0, 0], [0, 3, 0], [0, 0, 3]], [0, 0, 0], (True, False, False),
+            [[R(1, 10), R(3, 2), R(3, 2)], [R(99, 10), R(3, 2), R(3, 2)], [5, R(3, 2), R(3, 2)]], 1, 1, 1, 'quick'),
+           ('the same long cell with the atoms listed in the other order', [[10, 0, 0], [0, 3, 0], [0, 0, 3]], [0, 0, 0], (True, False, False),
+            [[R(99, 10), R(3, 2), R(3, 2)], [5, R(3, 2), R(3, 2)], [R(1, 10), R(3, 2), R(3, 2)]], 1, 1, 1, 'quick'),
+           ('cell with more bins along the second direction than along the first, a pair in the topmost occupied layer', [[1, 0, 0], [0, 4, 0], [0, 0, 1]], [0, 0, 0], (False, False, False),
+            [[R(9, 10), R(799, 200), R(1, 2)], [R(199, 200), R(799, 200), R(1, 2)], [R(1, 2), R(7, 2), R(1, 2)], [R(1, 2), R(1, 2), R(1, 2)]], 1, 1, 1, 'quick'),
+           ('cell with more bins along the third direction than along the second, pairs in the topmost occupied layer', [[1, 0, 0], [0, 2, 0], [0, 0, 5]], [0, 0, 0], (False, False, False),
+            [[R(1, 2), R(9, 10), R(999, 200)], [R(1, 2), R(399, 200), R(999, 200)], [R(199, 200), R(399, 200), R(999, 200)], [R(1, 2), R(1, 2), R(1, 2)]], 1, 1, 1, 'quick'),
+           ('cell not commensurate with the bins, a pair through the second periodic face whose images sit in bins that hold no real atom', [[3, 0, 0], [0, R(369, 100), 0], [0, 0, 3]], [0, 0, 0], (False, True, False),
+            [[R(6, 5), R(737, 200), R(3, 2)], [R(4, 5), R(1, 2), R(3, 2)]], 1, 1, 1, 'quick'),
+           ('thin cell along a direction that is not periodic: atoms at opposite faces are close only through an image that does not exist', [[3, 0, 0], [0, 3, 0], [0, 0, R(3, 2)]], [0, 0, 0], (True, True, False),
+            [[R(1, 2), R(1, 2), R(1, 10)], [R(1, 2), R(1, 2), R(7, 5)], [R(1, 2), R(11, 10), R(1, 10)]], 1, 1, 1, 'quick'),
+           ('forty-five atoms in one bin (the bin storage grows)', cube3, [0, 0, 0], (False, False, False), [[1 + R(i % 5, 5), 1 + R(2 * ((i // 5) % 3), 5), 1 + R(2 * (i // 15), 5)] for i in range(45)], 1, 2, 5, 'quick')]
+    return out
+
+
+def configurations(ctx):
+    """nlist() interpreted whole on small exact configurations: the table returned lists, for every atom, exactly the atoms closer than the cutoff (periodic distance of C02),
+    ascending, each once, whatever the storage sizes.  The distance kernel is modelled by its C02 specification (MINFOLD decides that it is that)."""
+    import numpy as np
+    fn = ctx.fn(NL, 'nlist')
+    loc = NL + '::nlist'
+    mod = ctx.mod(NL)
+    helpers = {n.name: n for n in mod.body if isinstance(n, ast.FunctionDef) and n.name not in ('nlist', 'unique_rows2')}
+    n = 0
+    for tag, vects, origin, flags, pos, cutoff, isize, dsize, tier in _configurations():
+        if tier == 'thorough' and ctx.tier != 'thorough':
+            continue
+        V, O, P = _exact(vects), _exact(origin), _exact(pos)
+        cutoff = sp.nsimplify(cutoff)
+        natoms = len(P)
+
+        class Bx(PyStub):
+            vects, origin = V, O
+
+        class At(PyStub):
+            pos = P
+
+        class Sy(PyStub):
+            box, atoms, pbc = Bx(), At(), tuple(flags)
+        Sy.natoms = natoms
+        seen = []
+
+        def kernel(up, vp, vv, a, b, c):
+            up, vp, vv = np.asarray(up, dtype=object), np.asarray(vp, dtype=object), np.asarray(vv, dtype=object)
+            if up.shape != vp.shape or up.ndim != 2 or up.shape[1] != 3 or vv.shape != (3, 3):
+                raise WouldRaise('dmag2_c called with position tables of shapes %s and %s' % (up.shape, vp.shape))
+            seen.append(len(up))
+            out = np.empty(len(up), dtype=object)
+            for i in range(len(up)):
+                out[i] = _periodic2(up[i], vp[i], vv, (bool(a), bool(b), bool(c)))
+            return out
+
+        def unique_rows(a):
+            rows = sorted({tuple(int(x) for x in r) for r in np.asarray(a, dtype=object)})
+            out = np.empty((len(rows), 3), dtype=object)
+            for i, r in enumerate(rows):
+                out[i] = [sp.Integer(x) for x in r]
+            return out
+        ev = SymEval(module_aliases(mod), funcs=dict(helpers))
+        ev.globals = {'dmag2_c': kernel, 'unique_rows2': unique_rows}
+        want = {i: sorted(j for j in range(natoms) if j != i and _periodic2(P[i], P[j], V, flags) < cutoff ** 2) for i in range(natoms)}
+        n += 1
+        try:
+            paths = ev.run_fn(fn, [], dict(system=Sy(), cutoff=cutoff, initialsize=sp.Integer(isize), deltasize=sp.Integer(dsize)))
+        except WouldRaise as e:
+            ctx.ob('CONFIGURATIONS', loc, '%s: the list is built' % tag, False, str(e)[:300], node=fn, key=tag)
+            continue
+        except Opaque as e:
+            raise AnalysisError('nlist on a model configuration (%s): %s' % (tag, e))
+        rets = [q for q in paths if q.done == 'return']
+        if len(paths) != 1 or len(rets) != 1:
+            ctx.ob('CONFIGURATIONS', loc, '%s: the list is built' % tag, False, '%d paths, %d return' % (len(paths), len(rets)), node=fn, key=tag)
+            continue
+        tab = np.asarray(rets[0].ret, dtype=object)
+        bad = []
+        if tab.ndim != 2 or tab.shape[0] != natoms:
+            bad.append('the table has shape %s for %d atoms' % (tab.shape, natoms))
+        else:
+            for i in range(natoms):
+                try:
+                    cnt = int(tab[i, 0])
+                    row = [int(x) for x in tab[i, 1:cnt + 1]]
+                except (TypeError, ValueError):
+                    bad.append('row %d is not a count followed by atom ids' % i)
+                    continue
+                if cnt + 1 > tab.shape[1] or row != want[i]:
+                    bad.append('atom %d lists %s, its neighbours are %s' % (i, row, want[i]))
+        ctx.ob('CONFIGURATIONS', loc, '%s (%d atoms, cutoff %s, storage %d+%d): every row is the count followed by the ascending list of exactly the other atoms whose periodic distance is below the cutoff'
+               % (tag, natoms, cutoff, isize, dsize), not bad, '; '.join(bad[:4]), node=fn, key=tag)
+    ctx.floor('CONFIGURATIONS', n, 16 if ctx.tier != 'thorough' else 17)
+
+
 def neighborlist(ctx):
     b = ctx.fn(NLP, 'NeighborList.build')
     loc = NLP + '::NeighborList'
@@ -584,9 +704,9 @@ def run(ctx):
     _cache.clear()
     ctx.explanation = ('C03: nlist.pyx is read through Cython\'s parser; reaching definitions decide that the swept bins are the populated bins; stencil, superbox, ghost acceptance, '
                        'membership test, sorted symmetric insertion and storage growth are structural/affine obligations on the lowered tree; NeighborList view layout and writer/reader agreement. '
-                       'Not decided: the pair set of a concrete configuration (needs distances).')
+                       'nlist() is also interpreted whole, in exact arithmetic, on scripted small configurations (CONFIGURATIONS): the table returned lists exactly the atoms below the cutoff. Not decided: configurations outside the scripted ones beyond what the structural rules imply.')
     from .c02 import minfold, DM
     from .. import readonly, lints
-    ctx.run_rules([lambda c: sweep_fill(c) and None, stencil, geometry, membership, insertion, neighborlist,
+    ctx.run_rules([lambda c: sweep_fill(c) and None, stencil, geometry, membership, insertion, configurations, neighborlist,
                    lambda c: minfold(c, DM, 'dmag2_c', False), lambda c: readonly.rule(c, NL, floor=2) and None,
                    lambda c: lints.c_double(c, 'C-DOUBLE', NL, floor=18), buffer_types])
